@@ -79,22 +79,34 @@ Bit(v, i) == (v \div P2[i]) % 2
 BitTest(v, m) == \E i \in 0..MaxExp : Bit(v, i) = 1 /\ Bit(m, i) = 1
 
 \* ---------------------------------------------------------------- intervals
-(* interval_distance of [a1,b1] and [a2,b2] (a1 <= b1, a2 <= b2), from the Doxygen text:
-   positive gap if disjoint, 0 if they touch; if they partially overlap minus the common length;
-   if one contains the other, the outer one is split in two parts by the inner one and minus the
-   length of the shorter part is returned. *)
+(* math::interval_distance of [a1,b1] and [a2,b2] (a1 <= b1, a2 <= b2).  What interval_distance.hpp
+   promises, sentence by sentence:
+     "Distance can be zero if the intervals touch, or negative if they overlap."   (and the positive
+        gap when they are disjoint - the distance of two intervals)
+     "If they only partially overlap, the distance is negative the common length where they overlap."
+     "If one completely contains the other, the "outer" interval is split in two parts by the
+        "inner" one.  In this case, the (again negative) length of the shorter part is returned.
+        Therefore the distance is zero if the inner interval touches the outer one."
+   Nothing else is promised (in particular nothing for first > second). *)
 Contains(a1, b1, a2, b2) == a1 <= a2 /\ b2 <= b1        \* [a1,b1] contains [a2,b2]
 IntervalDistance(a1, b1, a2, b2) ==
-  IF b1 <= a2 THEN a2 - b1
-  ELSE IF b2 <= a1 THEN a1 - b2
-  ELSE IF Contains(a1, b1, a2, b2) THEN -Min2(a2 - a1, b1 - b2)
+  IF b1 < a2 THEN a2 - b1                                 \* disjoint: the gap
+  ELSE IF b2 < a1 THEN a1 - b2
+  ELSE IF Contains(a1, b1, a2, b2) THEN -Min2(a2 - a1, b1 - b2)     \* minus the shorter part of the outer one
   ELSE IF Contains(a2, b2, a1, b1) THEN -Min2(a1 - a2, b2 - b1)
-  ELSE -(Min2(b1, b2) - Max2(a1, a2))
-(* inputs on which the Doxygen text is self-contradictory or silent and the judge is permissive:
-   a degenerate or equal-endpoint containment where "partial overlap" and "containment" both
-   apply with different values *)
-IntervalAmbiguous(a1, b1, a2, b2) ==
-  /\ ~(b1 <= a2) /\ ~(b2 <= a1)
-  /\ (Contains(a1, b1, a2, b2) \/ Contains(a2, b2, a1, b1))
-  /\ (a1 = a2 \/ b1 = b2)
+  ELSE -(Min2(b1, b2) - Max2(a1, a2))                    \* partial overlap: minus the common length
+(* the inner interval touches the outer one from inside (shares an end point) *)
+TouchesInside(a1, b1, a2, b2) ==
+  (Contains(a1, b1, a2, b2) \/ Contains(a2, b2, a1, b1)) /\ (a1 = a2 \/ b1 = b2)
+
+\* ---------------------------------------------------------------- value preserving conversions
+(* cast::size, cast::to_signed ("should only be used if _value fits into the result"),
+   cast::to_unsigned ("should only be used if _value is positive"), cast::promote_int,
+   cast::safe_numeric ("forbids lossy conversions"), cast::enum_to_int ("should only be used if the
+   enum value can be converted to the destination type"), cast::enum_to_underlying ("This cast is
+   safe"), cast::int_to_enum ("should only be used if the enum can actually hold the integer
+   value"), fcppt::literal ("Creates a literal of type Type from the value _integral"):
+   whenever the value is representable in the destination type the result is that value; the
+   documentation promises nothing otherwise. *)
+Convert(D, v) == v       \* demanded only if Representable(D, v)
 =============================================================================
